@@ -5,6 +5,7 @@ from . import pipelines
 def run(tier, seed, replay):
     stages = [("mc/MC_C08.tla", "mc/MC_C08_%s.cfg" % tier), ("mc/MC_C08.tla", "mc/MC_C08_three.cfg"),
               ("mc/MC_C08.tla", "mc/MC_C08_square.cfg"), ("mc/MC_C08.tla", "mc/MC_C08_nested.cfg"),
+              ("mc/MC_C08.tla", "mc/MC_C08_four.cfg"),
               ("mc/MC_C09.tla", "mc/MC_C09_%s.cfg" % tier)]      # overlays of FILTERED sources (and filters over overlays)
 
     def nontrivial(c):
@@ -14,7 +15,7 @@ def run(tier, seed, replay):
             and len({frozenset(x) for x in sets}) > 1
 
     rule = ("TLC enumerates every list of 2 sources over a 6-coordinate universe (incl. x = 31/32 at level 6: the 32x32 sub-box border) "
-            "of 3 sources over 4 coordinates and of 3 sources over a 2x2 square inside one sub-box (L-shaped holes), each coordinate present/absent per source with source-specific payloads, x codec "
+            "of 3 sources over 4 coordinates, of 4 sources over 3 coordinates and of 3 sources over a 2x2 square inside one sub-box (L-shaped holes), each coordinate present/absent per source with source-specific payloads, x codec "
             "combinations; checks the transcribed sub-box stream algorithm against Sem(overlay); each case is rendered to VPL, built by "
             "the real PipelineFactory (in-memory sources; every 40th case with real container files) and lookups, streams, declared "
             "codec and coverage are judged by TLC. non-trivial = sources overlap on a coordinate and have different extents")
